@@ -25,8 +25,6 @@ Ltac small_sum_step :=
   lazymatch goal with H : ?x = u32 (?a + ?b) |- _ =>
     let B := fresh "B" in assert (B : 0 <= a + b <= 12) by (timeout 120 lia);
     unfold u32 in H; rewrite (Z.mod_small (a + b) (2^32)) in H by (timeout 120 lia) end.
-Definition hidden (P : Prop) : Prop := P.
-Ltac hide H := match type of H with ?T => change (hidden T) in H end.
 Ltac overflow_step :=
   lazymatch goal with |- bind ?e _ => lazymatch e with context[scalar8x32_check_overflow] => idtac end end; bintro;
   lazymatch goal with E : context[scalar8x32_check_overflow ?a0 ?a1 ?a2 ?a3 ?a4 ?a5 ?a6 ?a7] |- _ =>
@@ -38,13 +36,19 @@ Ltac overflow_step :=
      unfold u64, u32 in E; repeat (rewrite Z.mod_small in E by (timeout 300 lia))
   end.
 
-Theorem scalar8x32_reduce_512_correct l0 l1 l2 l3 l4 l5 l6 l7 l8 l9 l10 l11 l12 l13 l14 l15 :
+(* r is the canonical residue of v modulo the group order (a definition, so that the arithmetic tactics do not look inside
+   hypotheses that merely mention it) *)
+Definition red_spec (v r : Z) : Prop := r = v mod N256.
+
+Theorem scalar8x32_reduce_512_wp l0 l1 l2 l3 l4 l5 l6 l7 l8 l9 l10 l11 l12 l13 l14 l15 :
   0 <= l0 < 2^32 -> 0 <= l1 < 2^32 -> 0 <= l2 < 2^32 -> 0 <= l3 < 2^32 -> 0 <= l4 < 2^32 -> 0 <= l5 < 2^32 -> 0 <= l6 < 2^32 -> 0 <= l7 < 2^32 -> 0 <= l8 < 2^32 -> 0 <= l9 < 2^32 -> 0 <= l10 < 2^32 -> 0 <= l11 < 2^32 -> 0 <= l12 < 2^32 -> 0 <= l13 < 2^32 -> 0 <= l14 < 2^32 -> 0 <= l15 < 2^32 ->
-  scalar8x32_reduce_512_k l0 l1 l2 l3 l4 l5 l6 l7 l8 l9 l10 l11 l12 l13 l14 l15 (fun r0 r1 r2 r3 r4 r5 r6 r7 =>
+  forall Q : Z -> Z -> Z -> Z -> Z -> Z -> Z -> Z -> Prop,
+  (forall r0 r1 r2 r3 r4 r5 r6 r7,
     (0 <= r0 < 2^32 /\ 0 <= r1 < 2^32 /\ 0 <= r2 < 2^32 /\ 0 <= r3 < 2^32 /\ 0 <= r4 < 2^32 /\ 0 <= r5 < 2^32 /\ 0 <= r6 < 2^32 /\ 0 <= r7 < 2^32) /\
-    val8w r0 r1 r2 r3 r4 r5 r6 r7 = val16w l0 l1 l2 l3 l4 l5 l6 l7 l8 l9 l10 l11 l12 l13 l14 l15 mod N256).
+    red_spec (val16w l0 l1 l2 l3 l4 l5 l6 l7 l8 l9 l10 l11 l12 l13 l14 l15) (val8w r0 r1 r2 r3 r4 r5 r6 r7) -> Q r0 r1 r2 r3 r4 r5 r6 r7) ->
+  scalar8x32_reduce_512_k l0 l1 l2 l3 l4 l5 l6 l7 l8 l9 l10 l11 l12 l13 l14 l15 Q.
 Proof.
-  intros H0 H1 H2 H3 H4 H5 H6 H7 H8 H9 H10 H11 H12 H13 H14 H15.
+  intros H0 H1 H2 H3 H4 H5 H6 H7 H8 H9 H10 H11 H12 H13 H14 H15 Q HQ. hide HQ.
   unfold scalar8x32_reduce_512_k.
   (* stages 1 and 2: 512 -> 385 -> 258 bits *)
   repeat first [ muladd32_step | muladd_fast32_step | sumadd32_step | sumadd_fast32_step | keep_step ].
@@ -55,11 +59,11 @@ Proof.
   assert (SP : p0 + p1 * 2^32 + p2 * 2^64 + p3 * 2^96 + p4 * 2^128 + p5 * 2^160 + p6 * 2^192 + p7 * 2^224 + p8 * 2^256 =
                m0 + m1 * 2^32 + m2 * 2^64 + m3 * 2^96 + m4 * 2^128 + m5 * 2^160 + m6 * 2^192 + m7 * 2^224 + (m8 + m9 * 2^32 + m10 * 2^64 + m11 * 2^96 + m12 * 2^128) * (801750719 + 1076732275 * 2^32 + 1354194884 * 2^64 + 1162945305 * 2^96 + 2^128)) by (timeout 600 lia).
   assert (Bp : (0 <= p0 < 2^32 /\ 0 <= p1 < 2^32 /\ 0 <= p2 < 2^32 /\ 0 <= p3 < 2^32 /\ 0 <= p4 < 2^32 /\ 0 <= p5 < 2^32 /\ 0 <= p6 < 2^32 /\ 0 <= p7 < 2^32) /\ 0 <= p8 <= 12) by (timeout 600 lia).
-  clear - SM Bm SP Bp H0 H1 H2 H3 H4 H5 H6 H7 H8 H9 H10 H11 H12 H13 H14 H15.
+  clear - SM Bm SP Bp HQ H0 H1 H2 H3 H4 H5 H6 H7 H8 H9 H10 H11 H12 H13 H14 H15.
   (* stage 3: 258 -> 256 bits, and the final conditional subtraction of n (the summaries of stages 1-2 are set aside) *)
   hide SM; hide SP; hide Bm.
   repeat first [ split32_step | keep_step | overflow_step | u64_step | trunc32_step ].
-  apply bind_intro; intros ? _; cbv beta.
+  apply bind_intro; intros ? _; cbv beta. unhide HQ. apply HQ. clear HQ. unfold red_spec.
   unfold hidden in *.
   match goal with H : ?co = (if N256 <=? ?v then 1 else 0) |- _ => destruct (Z.leb_spec N256 v) as [Hv|Hv] end.
   all: unfold val8w, val16w, N256 in *.
@@ -75,4 +79,13 @@ Proof.
   all: apply (Z.mod_unique_pos _ _ ((l8 + l9 * 2^32 + l10 * 2^64 + l11 * 2^96 + l12 * 2^128 + l13 * 2^160 + l14 * 2^192 + l15 * 2^224) + (m8 + m9 * 2^32 + m10 * 2^64 + m11 * 2^96 + m12 * 2^128) + p8 + scalar_reduce1_overflow)).
   all: destruct A3; subst c14 co scalar_reduce1_overflow.
   all: lia.
+Qed.
+
+Theorem scalar8x32_reduce_512_correct l0 l1 l2 l3 l4 l5 l6 l7 l8 l9 l10 l11 l12 l13 l14 l15 :
+  0 <= l0 < 2^32 -> 0 <= l1 < 2^32 -> 0 <= l2 < 2^32 -> 0 <= l3 < 2^32 -> 0 <= l4 < 2^32 -> 0 <= l5 < 2^32 -> 0 <= l6 < 2^32 -> 0 <= l7 < 2^32 -> 0 <= l8 < 2^32 -> 0 <= l9 < 2^32 -> 0 <= l10 < 2^32 -> 0 <= l11 < 2^32 -> 0 <= l12 < 2^32 -> 0 <= l13 < 2^32 -> 0 <= l14 < 2^32 -> 0 <= l15 < 2^32 ->
+  scalar8x32_reduce_512_k l0 l1 l2 l3 l4 l5 l6 l7 l8 l9 l10 l11 l12 l13 l14 l15 (fun r0 r1 r2 r3 r4 r5 r6 r7 =>
+    (0 <= r0 < 2^32 /\ 0 <= r1 < 2^32 /\ 0 <= r2 < 2^32 /\ 0 <= r3 < 2^32 /\ 0 <= r4 < 2^32 /\ 0 <= r5 < 2^32 /\ 0 <= r6 < 2^32 /\ 0 <= r7 < 2^32) /\
+    val8w r0 r1 r2 r3 r4 r5 r6 r7 = val16w l0 l1 l2 l3 l4 l5 l6 l7 l8 l9 l10 l11 l12 l13 l14 l15 mod N256).
+Proof.
+  intros. apply scalar8x32_reduce_512_wp; try assumption. intros r0 r1 r2 r3 r4 r5 r6 r7 HP. exact HP.
 Qed.
